@@ -14,6 +14,7 @@ import (
 	"verifharness/props/c06"
 	"verifharness/props/c07"
 	"verifharness/props/c08"
+	"verifharness/props/c12"
 	"verifharness/props/c13"
 	"verifharness/props/c15"
 	"verifharness/props/c16"
@@ -26,6 +27,7 @@ var registry = map[string]func() fw.Prop{
 	"C06": func() fw.Prop { return c06.Prop{} },
 	"C07": func() fw.Prop { return c07.Prop{} },
 	"C08": func() fw.Prop { return c08.Prop{} },
+	"C12": func() fw.Prop { return c12.Prop{} },
 	"C13": func() fw.Prop { return c13.Prop{} },
 	"C15": func() fw.Prop { return c15.Prop{} },
 	"C16": func() fw.Prop { return c16.Prop{} },
